@@ -11,25 +11,35 @@ open OdxVerif.Bits OdxVerif.OdxM
    components of the nested tier that do not touch the key dictionaries, LENGTH-KEY parameters and PARAM-LENGTH-INFO-TYPE
    users.  `Comps.values (KItems.comps its)` is `v`, `(Comps.pair (KItems.comps its)).val` is `complete ps v trig` (the keys
    with the bit lengths).  Still missing relative to the full statement (for this construct): keys behind a compu method
-   other than IDENTICAL or with a signed / BCD coded type, PARAM-LENGTH-INFO-TYPE objects of the numeric base types and at
-   a bit position, users that refer to a key of an ENCLOSING structure (the dictionaries are global to the PDU in the model
-   as in odxtools), a structure with keys as a component of an outer list (`Comp.Ok` quantifies over all encoder states;
-   a key structure needs a state whose `length_keys` does not know its keys yet), and "consumes the whole PDU".        -/
+   other than IDENTICAL or with a signed / BCD coded type, PARAM-LENGTH-INFO-TYPE objects of ZERO bits of a numeric type
+   (A_UINT32 value 0 with the key omitted; the empty byte field / string is covered), users that refer to a key of an
+   ENCLOSING structure and a structure with keys as a component of an outer list (the dictionaries are global to the PDU in
+   the model as in odxtools; `Comp.Ok` quantifies over all encoder states, a key structure needs a state whose `length_keys`
+   does not know its keys yet), and "consumes the whole PDU".                                                          -/
 
 /-- **C01, LENGTH-KEY tier.**  A request / response / structure whose parameters `its` are, in any order,
-    * **components** (`KItem.comp g`, `g.Ok ∧ g.EndOk` — everything `C01_roundtrip_nested` covers) that neither read nor
-      write the key dictionaries (`g.KeyFree`: no LENGTH-KEY parameter, no PARAM-LENGTH-INFO-TYPE object inside);
+    * **components** (`KItem.comp g`, `g.Ok ∧ g.EndOk` — everything `C01_roundtrip_nested` covers: leaves, structures, fields,
+      multiplexers in any nesting) that neither read nor write the key dictionaries (`g.KeyFree`; by
+      `Comp.keyFree_of_noKeys` this follows from the decidable syntactic check `g.param.noKeys = true`: no LENGTH-KEY
+      parameter and no PARAM-LENGTH-INFO-TYPE diag-coded type anywhere inside — `encKeeps` / `decKeeps`: on such a
+      description NO function of the model touches the dictionaries);
     * **LENGTH-KEY parameters** (`KItem.key o v supplied`) over an `A_UINT32` standard-length DOP of 1 … 64 bits with the
       identical compu method, at ANY byte position (explicit or behind its predecessor) and ANY bit position, either byte
       order; `v` is the key's final value, which the key can represent (`o.inRange (.int v)`: `0 ≤ v < 2^BIT-LENGTH` —
       the strict encoder rejects everything else); `supplied`: the caller specifies the key (then with the value `v`) or
       omits it;
-    * **VALUE parameters over a PARAM-LENGTH-INFO-TYPE DOP** (`KItem.user u`; `A_BYTEFIELD` or a string type without
-      BASE-TYPE-ENCODING, identical compu method, byte aligned) whose payload `u.raw` is what the codec puts on the wire for
-      the value `u.v` (`Payload`) and whose bit length is what `ParamLengthInfoType.encode_into_pdu` derives (`plBits`),
-    such that (`refsOk W [] its`) every user refers to a LENGTH-KEY of the SAME structure that is listed BEFORE it and the
-    key's value `W key` is the user's bit length (several users may share a key: they then have equal lengths), an omitted
-    key is referred to by some user (`covered`), and sibling names are distinct.
+    * **VALUE parameters over a PARAM-LENGTH-INFO-TYPE DOP**, identical compu method:
+      `KItem.user u` — `A_BYTEFIELD` or a string type without BASE-TYPE-ENCODING, byte aligned, of ANY length incl. zero,
+      whose payload `u.raw` is what the codec puts on the wire for the value `u.v` (`Payload`) and whose bit length is what
+      `ParamLengthInfoType.encode_into_pdu` derives (`plBits`);
+      `KItem.ouser o v key` — an object of ANY of the nine leaf kinds (`Obj`: A_INT32 ×4 encodings, A_UINT32, BCD, A_FLOAT32/64,
+      A_BYTEFIELD, the three string types; any bit position, byte order) whose size `o.bl ≥ 1` is what the key says, with a
+      value the object can hold (`o.inRange v`),
+    such that (`refsOk W [] [] its`) every user refers to a LENGTH-KEY of the SAME structure that is listed BEFORE it and the
+    key's value `W key` is the user's bit length (several users may share a key: they then have equal lengths); an object
+    user whose size is not what the encoder would derive from its value (`plDerived`: a 16-bit A_UINT32 holding 5) refers to
+    a key that is known when the encoder reaches it (specified, or derived for an earlier user); an omitted key is referred
+    to by some user (`covered`); sibling names are distinct.
     The first encoding loop writes a placeholder for each key — it claims NO bit —, the users claim theirs, the second loop
     writes each key's value into the bits nobody claimed.  If strict `encode` of the supplied dictionary (the users' values,
     the keys only if `supplied`) returns a PDU without an overlap warning, strict `decode` of that PDU returns the
@@ -37,7 +47,7 @@ open OdxVerif.Bits OdxVerif.OdxM
     `C01_roundtrip_nested`, for a last component that needs the end of the PDU.  Size bound = the model's fuel.) -/
 theorem C01_roundtrip_lengthkey (W : String → Option Int) (its : List KItem) (hok : ∀ it ∈ its, it.ok)
     (hneed : Comps.need (KItems.comps its) + 2 ≤ modelFuel) (hn : Comps.namesOk (KItems.comps its))
-    (hlast : Comps.eopLast (KItems.comps its)) (hrefs : KItems.refsOk W [] its) (hcov : KItems.covered its)
+    (hlast : Comps.eopLast (KItems.comps its)) (hrefs : KItems.refsOk W [] [] its) (hcov : KItems.covered its)
     (trig : Option Bytes) (pdu : Bytes)
     (hend : Comps.anyEop (KItems.comps its) = true → ((Comps.pair (KItems.comps its)).enc {}).cursorByte = pdu.length)
     (henc : encodeMessage none (Comps.toParams (KItems.comps its)) (.dict (Comps.values (KItems.comps its))) trig true
@@ -47,84 +57,123 @@ theorem C01_roundtrip_lengthkey (W : String → Option Int) (its : List KItem) (
   kitems_roundtrip_msg W its hneed hok hlast hn hrefs hcov trig pdu hend henc
 
 /-! ### non-vacuity
-    request = [ sid (CODED-CONST 0x2E, omitted);  k : LENGTH-KEY, 8 bits at BIT-POSITION 4 (it straddles bytes 1 and 2), omitted;
-                d : VALUE over PARAM-LENGTH-INFO-TYPE A_BYTEFIELD with key k, 3 bytes;  y : VALUE, 8 bits ] -/
+    request = [ sid (CODED-CONST 0x2E, omitted);
+                k : LENGTH-KEY, 8 bits at BIT-POSITION 4 (it straddles bytes 1 and 2), omitted or specified;
+                n : LENGTH-KEY, 8 bits, specified (16);
+                d : VALUE over PARAM-LENGTH-INFO-TYPE A_BYTEFIELD with key k, 3 bytes;
+                w : VALUE over PARAM-LENGTH-INFO-TYPE A_UINT32 with key n, value 5 in 16 bits (not what the encoder would derive: n must be given);
+                st : STRUCTURE { a : 8 bits; b : A_INT32 16 bits }  (a component; key-free by the syntactic criterion);
+                y : VALUE, 8 bits ] -/
 def exKeyObj : Obj := ⟨"k", none, some 4, none, true, 8, .uint32⟩
+def exKeyObjN : Obj := ⟨"n", none, none, none, true, 8, .uint32⟩
 def exUser : PLUser := { name := "d", bytePos := none, key := "k", bt := .bytefield, hl := true, v := .bytes [0xDE, 0xAD, 0xBE],
                          raw := [0xDE, 0xAD, 0xBE] }
+def exObjUser : Obj := ⟨"w", none, none, none, true, 16, .uint32⟩
+def exStructKids : List Comp :=
+  [Comp.ofObjValue ⟨"a", none, none, none, true, 8, .uint32⟩ (.int 7), Comp.ofObjValue ⟨"b", none, none, none, true, 16, .int32⟩ (.int 0x1234)]
+def exStruct : Comp := Comp.ofValue "st" none (DComp.struct exStructKids)
 def exKeyItems (supplied : Bool) : List KItem :=
   [.comp (Comp.ofObjConst ⟨"sid", none, none, none, true, 8, .uint32⟩ (.int 0x2E) false),
-   .key exKeyObj 24 supplied, .user exUser,
+   .key exKeyObj 24 supplied, .key exKeyObjN 16 true, .user exUser, .ouser exObjUser (.int 5) "n", .comp exStruct,
    .comp (Comp.ofObjValue ⟨"y", none, none, none, true, 8, .uint32⟩ (.int 0x77))]
-def exW : String → Option Int := fun n => if n = "k" then some 24 else none
+def exW : String → Option Int := fun n => if n = "k" then some 24 else if n = "n" then some 16 else none
 
-/-- the parameters: the key is a LENGTH-KEY parameter, `d`'s diag-coded type refers to it by name -/
+/-- the parameters: the keys are LENGTH-KEY parameters, the diag-coded types of `d` and `w` refer to them by name -/
 example : Comps.toParams (KItems.comps (exKeyItems false)) =
     [.mk "sid" none none (.codedConst (.std .uint32 none true 8 none false) (.int 0x2E)),
      .mk "k" none (some 4) (.lengthKey (.simple (.std .uint32 none true 8 none false) .uint32 .identical)),
+     .mk "n" none none (.lengthKey (.simple (.std .uint32 none true 8 none false) .uint32 .identical)),
      .mk "d" none none (.value (.simple (.paramLen .bytefield none true "k") .bytefield .identical) none),
+     .mk "w" none none (.value (.simple (.paramLen .uint32 none true "n") .uint32 .identical) none),
+     .mk "st" none none (.value (.struct none
+       [.mk "a" none none (.value (.simple (.std .uint32 none true 8 none false) .uint32 .identical) none),
+        .mk "b" none none (.value (.simple (.std .int32 none true 16 none false) .int32 .identical) none)]) none),
      .mk "y" none none (.value (.simple (.std .uint32 none true 8 none false) .uint32 .identical) none)] := rfl
-/-- the supplied values: no entry for `sid` and none for the key -/
+/-- the supplied values: no entry for `sid` and none for the key `k` -/
 example : Comps.values (KItems.comps (exKeyItems false)) =
-    [("d", .atom (.bytes [0xDE, 0xAD, 0xBE])), ("y", .atom (.int 0x77))] := rfl
-/-- … or the key is specified, consistently -/
+    [("n", .atom (.int 16)), ("d", .atom (.bytes [0xDE, 0xAD, 0xBE])), ("w", .atom (.int 5)),
+     ("st", .dict [("a", .atom (.int 7)), ("b", .atom (.int 0x1234))]), ("y", .atom (.int 0x77))] := rfl
+/-- … or `k` is specified, consistently -/
 example : Comps.values (KItems.comps (exKeyItems true)) =
-    [("k", .atom (.int 24)), ("d", .atom (.bytes [0xDE, 0xAD, 0xBE])), ("y", .atom (.int 0x77))] := rfl
-/-- the decoded values: every parameter, the key with the bit length of `d` -/
+    [("k", .atom (.int 24)), ("n", .atom (.int 16)), ("d", .atom (.bytes [0xDE, 0xAD, 0xBE])), ("w", .atom (.int 5)),
+     ("st", .dict [("a", .atom (.int 7)), ("b", .atom (.int 0x1234))]), ("y", .atom (.int 0x77))] := rfl
+/-- the decoded values: every parameter, the key `k` with the bit length of `d` -/
 example (b : Bool) : (Comps.pair (KItems.comps (exKeyItems b))).val =
-    [("sid", .atom (.int 0x2E)), ("k", .atom (.int 24)), ("d", .atom (.bytes [0xDE, 0xAD, 0xBE])), ("y", .atom (.int 0x77))] := rfl
-/-- the PDU (no overlap warning): sid; 24 = 0x18 shifted by 4 bits into bytes 1-2; the three bytes of `d`; `y` -/
+    [("sid", .atom (.int 0x2E)), ("k", .atom (.int 24)), ("n", .atom (.int 16)), ("d", .atom (.bytes [0xDE, 0xAD, 0xBE])),
+     ("w", .atom (.int 5)), ("st", .dict [("a", .atom (.int 7)), ("b", .atom (.int 0x1234))]), ("y", .atom (.int 0x77))] := rfl
+/-- the PDU (no overlap warning): sid; 24 = 0x18 shifted by 4 bits into bytes 1-2; n = 16; the three bytes of `d`; `w` in 16 bits;
+    the structure; `y` -/
+def exKeyPdu : Bytes := [0x2E, 0x01, 0x80, 0x10, 0xDE, 0xAD, 0xBE, 0x00, 0x05, 0x07, 0x12, 0x34, 0x77]
 example : (encodeMessage none (Comps.toParams (KItems.comps (exKeyItems false)))
-      (.dict (Comps.values (KItems.comps (exKeyItems false)))) none true).toOption
-    = some ([0x2E, 0x01, 0x80, 0xDE, 0xAD, 0xBE, 0x77], 0) := by decide +kernel
+      (.dict (Comps.values (KItems.comps (exKeyItems false)))) none true).toOption = some (exKeyPdu, 0) := by decide +kernel
 example : (encodeMessage none (Comps.toParams (KItems.comps (exKeyItems true)))
-      (.dict (Comps.values (KItems.comps (exKeyItems true)))) none true).toOption
-    = some ([0x2E, 0x01, 0x80, 0xDE, 0xAD, 0xBE, 0x77], 0) := by decide +kernel
+      (.dict (Comps.values (KItems.comps (exKeyItems true)))) none true).toOption = some (exKeyPdu, 0) := by decide +kernel
 /-- … and what the model's decoder makes of it -/
-example : ((decodeMessage none (Comps.toParams (KItems.comps (exKeyItems false))) [0x2E, 0x01, 0x80, 0xDE, 0xAD, 0xBE, 0x77] true).toOption.map
-    fun r => (pvalEq r.1 (.dict (Comps.pair (KItems.comps (exKeyItems false))).val), r.2)) = some (true, 7) := by decide +kernel
+example : ((decodeMessage none (Comps.toParams (KItems.comps (exKeyItems false))) exKeyPdu true).toOption.map
+    fun r => (pvalEq r.1 (.dict (Comps.pair (KItems.comps (exKeyItems false))).val), r.2)) = some (true, 13) := by decide +kernel
 /-- a wrong key is rejected by the strict encoder (the object does not have that many bits) -/
 example : (encodeMessage none (Comps.toParams (KItems.comps (exKeyItems true)))
-      (.dict [("k", .atom (.int 16)), ("d", .atom (.bytes [0xDE, 0xAD, 0xBE])), ("y", .atom (.int 0x77))]) none true).toOption
+      (.dict [("k", .atom (.int 16)), ("n", .atom (.int 16)), ("d", .atom (.bytes [0xDE, 0xAD, 0xBE])), ("w", .atom (.int 5)),
+              ("st", .dict [("a", .atom (.int 7)), ("b", .atom (.int 0x1234))]), ("y", .atom (.int 0x77))]) none true).toOption
     = none := by decide +kernel
+
+theorem exStruct_ok : exStruct.Ok ∧ exStruct.EndOk ∧ exStruct.KeyFree := by
+  have hoa : (⟨"a", none, none, none, true, 8, .uint32⟩ : Obj).ok := by simp [Obj.ok, Obj.encOk, Obj.sizeOk]
+  have hra : (⟨"a", none, none, none, true, 8, .uint32⟩ : Obj).inRange (.int 7) := by simp [Obj.inRange]
+  have hob : (⟨"b", none, none, none, true, 16, .int32⟩ : Obj).ok := by simp [Obj.ok, Obj.encOk, Obj.sizeOk, int32Known]
+  have hrb : (⟨"b", none, none, none, true, 16, .int32⟩ : Obj).inRange (.int 0x1234) := by
+    simp [Obj.inRange, int32InRange]
+  have hokAll : Comps.okAll exStructKids := ⟨Comp.ofObjValue_ok _ _ hoa hra, Comp.ofObjValue_ok _ _ hob hrb, trivial⟩
+  have hnames : Comps.namesOk exStructKids := by
+    simp [Comps.namesOk, exStructKids, Comp.name, Param.name, Comp.ofObjValue, Obj.toParam]
+  have hok : exStruct.Ok := Comp.ofValue_ok _ _ _ (DComp.struct_ok _ hokAll hnames ⟨rfl, trivial⟩)
+  refine ⟨hok, ?_, Comp.keyFree_of_noKeys _ hok (by decide +kernel)⟩
+  exact Comp.ofValue_endOk _ _ _ (DComp.struct_endOk _ hokAll ⟨Comp.ofObjValue_endOk _ _, Comp.ofObjValue_endOk _ _, trivial⟩
+    ⟨rfl, trivial⟩)
 
 theorem exKeyItems_ok (b : Bool) : ∀ it ∈ exKeyItems b, it.ok := by
   intro it hit
   simp only [exKeyItems, List.mem_cons, List.mem_nil_iff, or_false] at hit
-  rcases hit with rfl | rfl | rfl | rfl
+  rcases hit with rfl | rfl | rfl | rfl | rfl | rfl | rfl
   · have ho : (⟨"sid", none, none, none, true, 8, .uint32⟩ : Obj).ok := by simp [Obj.ok, Obj.encOk, Obj.sizeOk]
     have hr : (⟨"sid", none, none, none, true, 8, .uint32⟩ : Obj).inRange (.int 0x2E) := by simp [Obj.inRange]
     exact ⟨Comp.ofObjConst_ok _ _ _ ho hr, Comp.ofObjConst_endOk _ _ _, Comp.ofObjConst_keyFree _ _ _ ho hr⟩
   · exact ⟨⟨rfl, by simp [exKeyObj, Obj.ok, Obj.encOk, Obj.sizeOk]⟩, by simp [exKeyObj, Obj.inRange]⟩
+  · exact ⟨⟨rfl, by simp [exKeyObjN, Obj.ok, Obj.encOk, Obj.sizeOk]⟩, by simp [exKeyObjN, Obj.inRange]⟩
   · refine ⟨⟨allBytes_of_all _ (by decide), Or.inl ⟨rfl, rfl, Or.inl rfl⟩⟩, rfl⟩
+  · exact ⟨by simp [exObjUser, Obj.ok, Obj.encOk, Obj.sizeOk], by simp [exObjUser, Obj.inRange]⟩
+  · exact exStruct_ok
   · have ho : (⟨"y", none, none, none, true, 8, .uint32⟩ : Obj).ok := by simp [Obj.ok, Obj.encOk, Obj.sizeOk]
     have hr : (⟨"y", none, none, none, true, 8, .uint32⟩ : Obj).inRange (.int 0x77) := by simp [Obj.inRange]
     exact ⟨Comp.ofObjValue_ok _ _ ho hr, Comp.ofObjValue_endOk _ _, Comp.ofObjValue_keyFree _ _ ho hr⟩
 
 theorem exKeyItems_side (b : Bool) : Comps.namesOk (KItems.comps (exKeyItems b)) ∧ Comps.eopLast (KItems.comps (exKeyItems b)) ∧
-    KItems.refsOk exW [] (exKeyItems b) ∧ KItems.covered (exKeyItems b) := by
-  refine ⟨?_, ⟨rfl, rfl, rfl, trivial⟩, ⟨rfl, List.mem_cons_self .., rfl, trivial⟩, ?_⟩
+    KItems.refsOk exW [] [] (exKeyItems b) ∧ KItems.covered (exKeyItems b) := by
+  refine ⟨?_, ⟨rfl, rfl, rfl, rfl, rfl, rfl, trivial⟩, ?_, ?_⟩
   · simp [Comps.namesOk, KItems.comps, exKeyItems, KItem.toComp, Comp.name, Param.name, Comp.ofObjConst, Obj.toConstParam,
-      Comp.ofObjValue, Obj.toParam, Obj.toKeyParam, PLUser.toParam, exKeyObj, exUser]
-  · intro o v _
-    exact ⟨exUser, by simp [exKeyItems], by
-      rename_i h
-      simp only [exKeyItems, List.mem_cons, List.mem_nil_iff, or_false, reduceCtorEq, false_or, KItem.key.injEq] at h
-      rw [h.1]; rfl⟩
+      Comp.ofObjValue, Obj.toParam, Obj.toKeyParam, Obj.toPLParam, PLUser.toParam, exKeyObj, exKeyObjN, exUser, exObjUser,
+      exStruct, Comp.ofValue]
+  · refine ⟨rfl, rfl, by simp [exUser, exKeyObj, exKeyObjN], rfl, by simp [exKeyObj, exKeyObjN], rfl,
+      Or.inl (by simp [exUser, exKeyObj, exKeyObjN]), trivial⟩
+  · intro o v hm
+    simp only [exKeyItems, List.mem_cons, List.mem_nil_iff, or_false, reduceCtorEq, false_or, KItem.key.injEq] at hm
+    rcases hm with ⟨rfl, _, _⟩ | ⟨_, _, h⟩
+    · exact ⟨.user exUser, by simp [exKeyItems], _, rfl⟩
+    · cases h
 
 theorem Except.eq_ok_of_toOption' {ε α : Type} {e : Except ε α} {a : α} (h : e.toOption = some a) : e = .ok a := by
   cases e with
   | error x => cases h
   | ok b => simp only [Except.toOption, Option.some.injEq] at h; rw [h]
 
-/-- the theorem applies to the example, key omitted … -/
-example : ∃ cursor, decodeMessage none (Comps.toParams (KItems.comps (exKeyItems false))) [0x2E, 0x01, 0x80, 0xDE, 0xAD, 0xBE, 0x77] true
+/-- the theorem applies to the example, key `k` omitted … -/
+example : ∃ cursor, decodeMessage none (Comps.toParams (KItems.comps (exKeyItems false))) exKeyPdu true
     = .ok (.dict (Comps.pair (KItems.comps (exKeyItems false))).val, cursor) :=
   C01_roundtrip_lengthkey exW (exKeyItems false) (exKeyItems_ok false) (by decide) (exKeyItems_side false).1
     (exKeyItems_side false).2.1 (exKeyItems_side false).2.2.1 (exKeyItems_side false).2.2.2 none _ (fun h => by cases h)
     (Except.eq_ok_of_toOption' (by decide +kernel))
-/-- … and key specified -/
-example : ∃ cursor, decodeMessage none (Comps.toParams (KItems.comps (exKeyItems true))) [0x2E, 0x01, 0x80, 0xDE, 0xAD, 0xBE, 0x77] true
+/-- … and key `k` specified -/
+example : ∃ cursor, decodeMessage none (Comps.toParams (KItems.comps (exKeyItems true))) exKeyPdu true
     = .ok (.dict (Comps.pair (KItems.comps (exKeyItems true))).val, cursor) :=
   C01_roundtrip_lengthkey exW (exKeyItems true) (exKeyItems_ok true) (by decide) (exKeyItems_side true).1
     (exKeyItems_side true).2.1 (exKeyItems_side true).2.2.1 (exKeyItems_side true).2.2.2 none _ (fun h => by cases h)
